@@ -23,6 +23,18 @@ J gen_seq(const std::string& prop, uint64_t run_seed, const std::string& tier) {
   (void)tier;
   Rng g(run_seed, "gen"), net(run_seed, "net"), kn(run_seed, "knobs"), fr(run_seed, "fault");
   J plan = J::obj(); J knobs = J::obj();
+  if (prop != "C05lite" && g.chance(1, 300)) {
+    // x followed by more than 4 GiB of y (here: zero bytes, each a valid item): a receiver that maps a large file and decodes item by item
+    GenProfile gp; gp.max_depth = 2; gp.max_kids = 3; std::vector<uint8_t> x;
+    if (g.chance(1, 2)) { uint64_t cnt = g.range(1000, 3000); bool map = g.chance(1, 3); ref_head(map ? 5 : 4, cnt, x); for (uint64_t i = 0; i < cnt * (map ? 2 : 1); i++) x.push_back((uint8_t)(i % 24)); }
+    else ref_encode(gen_mv(g, gp), x);
+    J h = J::obj(); h.set("hex", to_hex(x)); J sizes = J::arr();
+    for (int i = 0; i < 10; i++) { uint64_t base = (uint64_t)1 << 32; sizes.push(g.chance(1, 2) ? base + g.below(4000) : g.chance(1, 2) ? base + g.below(100000) : 2 * base + g.below(4000)); }
+    sizes.push(((uint64_t)1 << 32) + 512); sizes.push((uint64_t)1 << 32);
+    h.set("sizes", sizes); plan.set("huge", h); plan.set("conns", J::arr());
+    knobs.set("be", (uint64_t)BE_DIRECT); knobs.set("maxreq", (uint64_t)1 << 20); plan.set("knobs", knobs);
+    return plan;
+  }
   knobs.set("buf", kn.below(3)); knobs.set("empty_call", kn.chance(1, 4) ? 1 : 0);
   knobs.set("be", prop == "C13" ? kn.below(3) : (kn.chance(1, 5) ? (uint64_t)BE_TAG : (uint64_t)BE_DIRECT));
   knobs.set("rm", kn.below(2));
@@ -105,8 +117,25 @@ struct SConn {
 struct Event { uint64_t at, seq; int conn; bool operator>(const Event& o) const { return at != o.at ? at > o.at : seq > o.seq; } };
 }
 
+static void exec_seq_huge(const J& h) {
+  uint8_t* R = huge_region(); if (!R) { stat_add("huge_region_unavailable"); return; }
+  std::vector<uint8_t> x = from_hex(h.gets("hex")); if (x.empty() || x.size() > 60000) return;
+  memcpy(R, x.data(), x.size());
+  uint64_t items = 0;
+  for (size_t i = 0; i < h.at("sizes").size() && !failed() && !g_run.foreign_seen; i++) {
+    uint64_t n = h.at("sizes").iu(i); if (n > HUGE_REGION_BYTES - 16) n = HUGE_REGION_BYTES - 16; if (n < x.size()) continue;
+    LoadOpts o; std::string where = fmt("item followed by zero bytes up to a buffer length of 2^32 %+lld", (long long)(n - ((uint64_t)1 << 32))); o.where = where.c_str(); o.post_ops = false;
+    LoadOutcome r = checked_load(R, (size_t)n, o, nullptr);
+    if (r.item) items++;
+    stat_add("huge_buffer_loads");
+  }
+  memset(R, 0, x.size());
+  g_run.nontrivial = items >= 1;
+}
+
 void exec_seq(const J& plan) {
   if (!g_task_mode) sa_reset(knobs_alloc(plan));
+  if (plan.has("huge")) { if (!g_task_mode) exec_seq_huge(plan.at("huge")); return; }
   const J& kn = plan.at("knobs");
   int buf_policy = (int)kn.getu("buf"); bool empty_call = kn.getu("empty_call") != 0;
   const J& jc = plan.at("conns");
